@@ -5,11 +5,21 @@ import os, sys, json, shutil, subprocess, re
 V = os.path.dirname(os.path.dirname(os.path.abspath(__file__)))
 OFFSET = int(os.environ.get('SEED_OFFSET', '0'))      # round 2 of the seeding is stored as <prop>-3, <prop>-4
 props = [a for a in sys.argv[1:] if not a.startswith('--')] or sorted(d for d in os.listdir('/tmp/seed') if re.fullmatch(r'C\d\d', d))
+jobs = []
 for P in props:
     for n in (1, 2):
         src = '/tmp/seed/%s/seed%d' % (P, n)
         if not os.path.exists(os.path.join(src, 'patch.diff')): continue
-        dst = os.path.join(V, 'seeded', '%s-%d' % (P, n + OFFSET)); shutil.rmtree(dst, ignore_errors=True); os.makedirs(dst)
+        if re.fullmatch(r'T\d+', P):      # themed round: the sub-agent chose the property; stored under the next free index of that property
+            prop = json.load(open(os.path.join(src, 'meta.json'))).get('property')
+            k = 1
+            while os.path.exists(os.path.join(V, 'seeded', '%s-%d' % (prop, k))): k += 1
+            os.makedirs(os.path.join(V, 'seeded', '%s-%d' % (prop, k))); jobs.append((src, prop, k, P))
+        else: jobs.append((src, P, n + OFFSET, None))
+for src, P, idx, theme in jobs:
+    if True:
+        n = idx - OFFSET
+        dst = os.path.join(V, 'seeded', '%s-%d' % (P, idx)); shutil.rmtree(dst, ignore_errors=True); os.makedirs(dst)
         shutil.copy(os.path.join(src, 'patch.diff'), dst)
         # demonstration: sources only, no build output, nothing above 300 kB
         def ignore(d, names): return [x for x in names if x in ('target', 'target-demo', '__pycache__') or (os.path.isfile(os.path.join(d, x)) and os.path.getsize(os.path.join(d, x)) > 300000)]
@@ -18,7 +28,7 @@ for P in props:
         try: meta = json.load(open(os.path.join(src, 'meta.json')))
         except Exception as e: meta = {'note': 'meta.json of the sub-agent unreadable: %r' % e}
         confirm = open(os.path.join(src, 'confirm.txt')).read() if os.path.exists(os.path.join(src, 'confirm.txt')) else ''
-        out = {'property': P, 'summary': meta.get('summary'), 'needs_to_manifest': meta.get('needs_to_manifest'), 'files_touched': meta.get('files_touched'),
+        out = {'property': P, 'theme_round': theme, 'summary': meta.get('summary'), 'needs_to_manifest': meta.get('needs_to_manifest'), 'files_touched': meta.get('files_touched'),
                'demo_cmd': meta.get('demo_cmd'), 'produced_by': 'independent sub-agent given only the property text and a scratch worktree of /repo (HEAD 798d2be)',
                'confirmed_by_me': {'procedure': 'tools/confirm_seed.sh in the scratch worktree: git apply --check; cargo test --offline with the patch; demo with the patch; demo on HEAD',
                                    'patch_applies': 'patch applies: yes' in confirm, 'tests_with_patch': (re.search(r'tests with patch: (.*)', confirm) or [None, None])[1],
@@ -32,7 +42,7 @@ for P in props:
             summ = [l for l in txt.split('\n') if l.startswith(P + ' tier=')]
             out['detection'] = {'check': './check %s --tier quick' % P, 'violation_lines': vio[:3], 'summary': summ[-1] if summ else None,
                                 'caught': bool(vio), 'with_failing_input': bool(vio) and not all('no-failing-input-found' in v for v in vio)}
-            print(P, n + OFFSET, 'caught' if vio else 'MISSED', summ[-1] if summ else txt[-300:])
+            print(P, idx, theme or '', 'caught' if vio else 'MISSED', summ[-1] if summ else txt[-300:])
         json.dump(out, open(os.path.join(dst, 'meta.json'), 'w'), indent=1)
 
 # index of all seeds
